@@ -7,7 +7,7 @@ import YowsupVerif.Lemmas.E2ETokAppSend
 namespace Yow.E2E
 
 section
-variable {accts : List Acct} {groups : List (Nat × List Acct)}
+variable {ex : Bool} {accts : List Acct} {groups : List (Nat × List Acct)}
 
 theorem lookup_none_not_mem {α β : Type} [DecidableEq α] {l : List (α × β)} {k : α} (h : lookup l k = none) :
     ∀ p ∈ l, p.1 ≠ k := by
@@ -25,12 +25,12 @@ theorem lookup_none_not_mem {α β : Type} [DecidableEq α] {l : List (α × β)
 
 theorem onIqResult_TV (hw : WFConfig accts groups) {s : Sys} {a : Acct} {hd : Stanza} {rest : List Stanza} {iq : Nat}
     {got ms : List Acct}
-    (hA : AInv accts groups (abs s)) (hT : TV accts groups s.submitted (view s)) (ha : a ∈ accts)
+    (hA : AInv accts groups (abs s)) (hT : TV ex accts groups s.submitted (view s)) (ha : a ∈ accts)
     (hlen : s.submitted.length ≤ 100)
     (hq : queueOf s.outbound a = hd :: rest) (hiq : stanzaIq hd = some iq)
     (hplain : ∀ id r, downTok id hd = 0 ∧ nOf id hd = 0 ∧ rcptOut id r hd = 0 ∧ retryDownTok id r hd = 0)
     (hgot : ∀ k0, lookup (getClient s a).iqReg iq = some k0 → ∀ j, j ∈ asked k0 → j ∈ got) :
-    TV accts groups s.submitted (view (onIqResult { s with outbound := insert s.outbound a rest } a iq got ms)) := by
+    TV ex accts groups s.submitted (view (onIqResult { s with outbound := insert s.outbound a rest } a iq got ms)) := by
   cases hk0 : lookup (getClient s a).iqReg iq with
   | none =>
     have : onIqResult { s with outbound := insert s.outbound a rest } a iq got ms = { s with outbound := insert s.outbound a rest } := by
@@ -54,8 +54,8 @@ theorem onIqResult_TV (hw : WFConfig accts groups) {s : Sys} {a : Acct} {hd : St
       | _ => cases hcn
 
 theorem deliver_TInv (hw : WFConfig accts groups) {s : Sys} {a : Acct}
-    (h : TInv accts groups s) (hall : Allowed s (.deliver a .none) = true) (hlen : s.submitted.length ≤ 100) :
-    TInv accts groups (step s (.deliver a .none)) := by
+    (h : TInv ex accts groups s) (hall : Allowed s (.deliver a .none) = true) (hlen : s.submitted.length ≤ 100) :
+    TInv ex accts groups (step s (.deliver a .none)) := by
   obtain ⟨hA, hT⟩ := h
   refine ⟨step_inv hA hall, ?_⟩
   cases hq : queueOf s.outbound a with
@@ -86,7 +86,7 @@ theorem deliver_TInv (hw : WFConfig accts groups) {s : Sys} {a : Acct}
       | delivery => exact onReceipt_delivery_TV hw hA hT hq
       | retry cnt => exact onReceipt_retry_TV hw hA hT hq
     | ack id cls =>
-      show TV accts groups s.submitted (view { s with outbound := insert s.outbound a rest })
+      show TV ex accts groups s.submitted (view { s with outbound := insert s.outbound a rest })
       rw [view_setOutbound]
       exact pop_only hw.1 hT ha hq (fun _ _ => ⟨rfl, rfl, rfl, rfl⟩) (fun e _ => by simp [stanzaIq])
     | getKeys iq jids => exact absurd hdg.dir (by simp [downDir])
